@@ -702,7 +702,9 @@ def run_check(tier, seed):
     RX['coq'] = 'all_rfixes'
     ev.cov['code_variant'] = {'model': 'all_rfixes', 'decided_by': 'C16_full'}
     t0 = time.time()
+    import pure_tie; pure_tie.prepare(PROP, ev, broken)      # Gen/RustPure.v from the function bodies in REPO (PROP_src_* theorems)
     std_audit(ev, PROP, broken)
+    pure_tie.after_audit(PROP, broken)                         # a source tie broke: look for a concrete differing input
     log('C16: coq audit %.1fs' % (time.time() - t0)); t0 = time.time()
     ok, out, bindir = cargo_build(['readdir'], features=['async-io'])
     if not ok:
